@@ -140,6 +140,11 @@ func validateMaxRequestTimeout(i interface{}) error {
 		return fmt.Errorf("maximum request timeout must be positive: %d", v)
 	}
 
+	// a timeout is added to the block height to get the expiration height
+	if v > int64(MaxRepeatedFrequency) {
+		return fmt.Errorf("maximum request timeout must not exceed %d: %d", MaxRepeatedFrequency, v)
+	}
+
 	return nil
 }
 
